@@ -538,7 +538,7 @@ structure StepOut (b : Bank) (rs rs' : List Win) (h : Sample) (data : Bytes) (b'
   entry : ∃ s, b'.samples[idx]? = some s ∧ s.win.reads b'.rom = (data.drop h.start).take h.size ∧
             s.start = h.start ∧ s.size = h.size ∧ s.rate = h.rate
   stable : ∀ w : Win, (∃ r ∈ rs, r.lo ≤ w.lo ∧ w.lo + w.len ≤ r.lo + r.len) → w.reads b'.rom = w.reads b.rom
-  grows : ∃ extra, b'.samples = b.samples ++ extra
+  grows : (idx < b.samples.length ∧ b'.samples = b.samples) ∨ (idx = b.samples.length ∧ ∃ s, b'.samples = b.samples ++ [s])
   same : b'.maxSize = b.maxSize ∧ b'.bankSize = b.bankSize
 
 theorem addSample_step (b : Bank) (rs : List Win) (h : Sample) (data : Bytes) (b' : Bank) (idx : Nat)
@@ -586,13 +586,13 @@ theorem addSample_step (b : Bank) (rs : List Win) (h : Sample) (data : Bytes) (b
       obtain ⟨rfl, rfl⟩ := hr
       obtain ⟨hlt2, hp2, _⟩ := List.findIdx?_eq_some_iff_getElem.mp hri
       simp only [sameHeader, decide_eq_true_eq] at hp2
-      refine ⟨inv, ⟨b.samples[ri], List.getElem?_eq_getElem hlt2, ?_, ?_, ?_, ?_⟩, fun _ _ => rfl, ⟨[], by simp⟩, rfl, rfl⟩
+      refine ⟨inv, ⟨b.samples[ri], List.getElem?_eq_getElem hlt2, ?_, ?_, ?_, ?_⟩, fun _ _ => rfl, Or.inl ⟨hlt2, rfl⟩, rfl, rfl⟩
       all_goals rw [hp2]
       · exact hcontent
       all_goals rfl
     · simp only [Except.ok.injEq, Prod.mk.injEq] at hr
       obtain ⟨rfl, rfl⟩ := hr
-      refine ⟨?_, ⟨{ h with position := i.position }, by simp, hcontent, rfl, rfl, rfl⟩, fun _ _ => rfl, ⟨_, rfl⟩, rfl, rfl⟩
+      refine ⟨?_, ⟨{ h with position := i.position }, by simp, hcontent, rfl, rfl, rfl⟩, fun _ _ => rfl, Or.inr ⟨rfl, _, rfl⟩, rfl, rfl⟩
       refine ⟨inv.romLen, inv.curLe, inv.bankPos, inv.small, inv.gapWf, inv.regWf, inv.tiles, inv.account, ?_, ?_⟩
       · intro s hs
         rcases List.mem_append.mp hs with hs | hs
@@ -609,7 +609,7 @@ theorem addSample_step (b : Bank) (rs : List Win) (h : Sample) (data : Bytes) (b
     have hsr : stepRegions b h data rs = rs ++ [⟨(placeFresh b h.size).2.1, h.size⟩] := by simp [stepRegions, hd]
     rw [hsr]
     obtain ⟨q1, q2, q3, q4, q5, _, q7, q8⟩ := addFresh_step b rs h data b' idx inv adm.fits adm.small (adm.fresh0 hd) hr
-    refine ⟨q1, ⟨{ h with position := (placeFresh b h.size).2.1 }, ?_, q4, rfl, rfl, rfl⟩, q5, ⟨_, q3⟩, q7, q8⟩
+    refine ⟨q1, ⟨{ h with position := (placeFresh b h.size).2.1 }, ?_, q4, rfl, rfl, rfl⟩, q5, Or.inr ⟨q2, _, q3⟩, q7, q8⟩
     rw [q3, q2]; simp
 
 end Ctrmml.Wave
